@@ -61,6 +61,8 @@ mod conn_id;
 mod introspection_database;
 mod serial_map;
 mod versioned_message;
+#[cfg(feature = "verif-hooks")]
+pub mod verif_hooks;
 
 pub use acceptor::{AcceptError, Acceptor};
 pub use aldrin_core as core;
